@@ -16,7 +16,10 @@ Declared rewrites (R6, logged):
        (FnMut closure over the structure + yasna reader: outside the verifier); the trailing `?` and EVERY statement after the parse are verbatim
   Rcd  `yasna::construct_der(|writer| { M.write_asn1(writer).unwrap(); })` -> `to_der(&M)` (this IS the body of asn1.rs to_der)
   Ras  `V as OctetString` -> `V` (a cast of Vec<u8> to its own alias; Verus has no non-primitive `as`)
-Closure contract: the factory closure handed to SequenceOf::reader states the layout it builds.
+Closure annotations (closures=): the factory closure handed to SequenceOf::reader states the layout it builds (checked against its verbatim body);
+`|_|` of map_err in read_public_certificate gets a named typed parameter `|_e: X509Error| -> (r: Error)` (Verus accepts only variables there), body verbatim.
+Proof aids of the readers all sit AT the parse statement and quantify over any Sequence / SequenceOf reached from the parsed structure, so the
+statements after the parse (where the index / unwrap obligations live) carry no annotation and may be re-written freely by a change under check.
 """
 import re
 from vx.spec import *
@@ -49,8 +52,6 @@ PROVED = {n: stub_clauses(n) for n in NAMES}
 def check_cssp_stubs():
     """drift check: every function proved here is still a Stub of unit cssp, without `requires`, with exactly the clauses proved here"""
     for n in NAMES:
-        if not [x for x in items if x.kind == "fn" and x.name == n and x.file == CSSP]:
-            continue
         s = _cssp_stub(n)
         if s.requires:
             raise LostAnchor("csspder: unit cssp assumes a precondition for %s that is not proved here" % n)
@@ -80,13 +81,15 @@ items = []
 A = items.append
 
 # ---- extracted verbatim from src/nla/asn1.rs
-A(Item(ASN1, "enum", "ASN1Type", mod=None))
-A(Item(ASN1, "struct", "ExplicitTag", mod=None))
-A(Fn(ASN1, "new", impl=r"^impl<T> ExplicitTag<T>$", mod=None, props=["C07"], ensures=["r.tag == tag && r.inner == inner"]))
+A(Item(ASN1, "enum", "ASN1Type", mod=None))      # top level: the trusted `ANode::visit` of prelude/asn1_cssp.rs returns it
+A(Item(ASN1, "struct", "ExplicitTag", mod="asn1"))
+ET_NEW = Fn(ASN1, "new", impl=r"^impl<T> ExplicitTag<T>$", mod="asn1", props=["C07"], ensures=["r.tag == tag && r.inner == inner"])
+ET_NEW.impl_label = "ExplicitTag"
+A(ET_NEW)
 A(Raw(r"""
 /// ExplicitTag is transparent in the ghost view: its read_asn1 / visit delegate to the inner node (src/nla/asn1.rs)
 impl<T: ASN1> ASN1 for ExplicitTag<T> { open spec fn av(&self) -> AV { self.inner.av() } }
-""", mod=None, name="explicit_tag_view", trusted="ExplicitTag<T> is transparent in the ghost view (its read_asn1 and visit delegate to the inner node)"))
+""", mod="asn1", name="explicit_tag_view", trusted="ExplicitTag<T> is transparent in the ghost view (its read_asn1 and visit delegate to the inner node)"))
 
 # ---- the abstract DER functions of unit cssp (same text, imported) and their link to the tree model
 DER_SPECS = [x for x in C.UNIT.items if x.kind == "raw" and x.name == "cssp_der_specs"]
@@ -261,5 +264,5 @@ A(Fn(CSSP, "create_ts_authinfo", mod="cssp", props=["C07"], ensures=cl("create_t
         assert(ts_authinfo.fields() =~= seq![("version"@, AV::U32(2)), ("authInfo"@, AV::Octets(auth_info@))]);
     }""", "before")]))
 
-UNIT = _CheckedUnit("csspder", ["base.rs", "nla.rs", "asn1_cssp.rs"], items, mods=[None, "cssp"],
+UNIT = _CheckedUnit("csspder", ["base.rs", "nla.rs", "asn1_cssp.rs"], items, mods=[None, "asn1", "cssp"], uses={"cssp": ["use super::asn1::*;"]},
                     doc="DER readers / writers of src/nla/cssp.rs (real bodies) over a trusted model of src/nla/asn1.rs + yasna: totality on hostile bytes, and the Stub clauses unit cssp assumes")
